@@ -1,8 +1,13 @@
-"""extract_pass: translate the recursive forward pass of schedule.py
+"""extract_pass: translate the recursive passes of schedule.py
 
   ForwardScheduler.__forward_pass(self, _task, min_date, resource_usage, calculated)
+  BackwardScheduler.__backward_pass(self, _task, min_date, resource_usage, calculated)
 
-into a term of PyLite (lean/PjVerif/Model/PyLite.lean, pass layer: `Expr.evalP` / `Stmt.execP` / `callP`).
+and the two (textually identical) static methods
+
+  ForwardScheduler.__prepare_tasks(project) / BackwardScheduler.__prepare_tasks(project)
+
+into terms of PyLite (lean/PjVerif/Model/PyLite.lean, pass layer: `Expr.evalP` / `Stmt.execP` / `callP`).
 
 Same conventions as extract_calendar / extract_schedule (whose translators are reused): terms are s-expressions,
 anything outside the subset raises Miss - the translator never guesses.  Forms added here:
@@ -23,14 +28,27 @@ anything outside the subset raises Miss - the translator never guesses.  Forms a
                                              `args` = the arguments without the ledger (max_steps is left to its default);
                                              the signatures are those checked by extract_schedule
                ["field", f]                  `self.__f` for f in SELF_FIELDS only
+               ["min", a, b]                 `min(a, b)`, the arguments in source order (they may change the state)
+               ["timedelta", e]              `timedelta(days=e)`
+               ["reversed", l]               `reversed(l)`, only as the iterable of a `for` statement and only for
+                                             `l` = `<task variable>.<task list>` (the pass never changes these lists, so
+                                             Python's reverse iterator yields the items of the list, last first)
                `x or y` / `x and y` / conditions may be any translated expression (PyLite's `truthP` is stuck outside
                bool / None / number / datetime)
   statements   ["setAttr", ["var", v], f, e] `v.f = e`, `f` one of TASK_WRITABLE
                `a = b = e` is emitted as `<tmp> = e; a = <tmp>; b = <tmp>` (Python evaluates `e` once and assigns
                left to right); <tmp> is CHAIN_TMP, a name that does not occur in the method
+               `v.f op= e` (`f` one of TASK_WRITABLE) is emitted as `v.f = v.f op e`, i.e.
+               ["setAttr", ["var", v], f, ["bin", op, ["attr", ["var", v], f], e]]: Python reads `v.f`, then
+               evaluates `e`, applies the operator and stores - the order `setAttr` uses; the slots hold immutable
+               values (datetimes, numbers, None), for which `op=` is `op`
                ["calcAppend", e]             `calculated.append(id(e))`, `e` a task variable
-               ["recurse", args]             `self.__forward_pass(a, b, resource_usage, calculated)` as a statement:
+               ["recurse", args]             `self.<the method itself>(a, b, resource_usage, calculated)` as a statement:
                                              `args` = [a, b]; the ledger and `calculated` must be passed on unchanged
+In `__prepare_tasks` the parameter `project` (annotated `WBS`) may only occur as the iterable `project.tasks` of a `for`
+statement, emitted as ["attr", ["var", "project"], "tasks"]: the WBS object is an object of the heap whose attribute
+`tasks` holds the list of its member tasks (`WBS.tasks` is a property that builds this list; it is read once, when the
+loop starts); the loop variable is a task variable.
 A comprehension variable may shadow a local of the method (Python 3: a comprehension has its own scope; PyLite binds
 the variable for the element/condition only and evaluates the iterable outside).  `resource_usage` and `calculated`
 may only occur in the forms above (no aliasing), task variables are never assigned."""
@@ -41,8 +59,13 @@ import extract_calendar as ec
 import extract_schedule as es
 from extract_calendar import Miss, miss, strip_docstring
 
-CLASS = 'ForwardScheduler'
-METHOD = '__forward_pass'
+# key of the generated term -> (class, method)
+METHODS = {'Fwd_pass': ('ForwardScheduler', '__forward_pass'),
+           'Bwd_pass': ('BackwardScheduler', '__backward_pass')}
+PREPARE = '__prepare_tasks'
+PREPARES = {'Fwd_prepare': 'ForwardScheduler', 'Bwd_prepare': 'BackwardScheduler'}
+WBS_CLASS = 'WBS'
+WBS_TASKS = 'tasks'
 PARAMS = ['_task', 'min_date', 'resource_usage', 'calculated']
 LEDGER = 'resource_usage'
 CALC = 'calculated'
@@ -52,7 +75,6 @@ TASK_ATTRS = TASK_LISTS | TASK_WRITABLE | {'wbs', 'milestone', 'resource', 'min_
 SELF_FIELDS = {'default_estimate', 'balance_resources'}
 CHAIN_TMP = '_chain_value'
 CALLS = {es.NEAREST: es.NEAREST_PARAMS, es.SHIFT: es.SHIFT_PARAMS}
-KEY = 'Fwd_pass'
 
 
 def unmangle(name):
@@ -60,10 +82,12 @@ def unmangle(name):
 
 
 class PTr(es.STr):
-    def __init__(self, self_name, readable, task_vars, used_names):
+    def __init__(self, self_name, readable, task_vars, used_names, method, wbs_vars=()):
         super().__init__(self_name, set(readable), ledger=LEDGER, resources=())
         self.task_vars = set(task_vars)
         self.used_names = used_names
+        self.method = method            # the method being translated (the target of `recurse`); None: no recursion
+        self.wbs_vars = set(wbs_vars)   # parameters holding a WBS object: only `<v>.tasks` as a `for` iterable
 
     # ---- helpers
     def task_var(self, n):
@@ -73,6 +97,17 @@ class PTr(es.STr):
     def task_attr(self, n, attrs=TASK_ATTRS):
         return isinstance(n, ast.Attribute) and isinstance(n.ctx, ast.Load) and self.task_var(n.value) \
             and n.attr in attrs
+
+    def wbs_tasks(self, n):
+        return isinstance(n, ast.Attribute) and isinstance(n.ctx, ast.Load) and isinstance(n.value, ast.Name) \
+            and isinstance(n.value.ctx, ast.Load) and n.value.id in self.wbs_vars and n.attr == WBS_TASKS
+
+    def reversed_task_list(self, n):
+        """`reversed(<task variable>.<task list>)`: the argument, else None"""
+        if isinstance(n, ast.Call) and isinstance(n.func, ast.Name) and n.func.id == 'reversed' and not n.keywords \
+                and len(n.args) == 1 and not self.known('reversed') and self.task_attr(n.args[0], TASK_LISTS):
+            return n.args[0]
+        return None
 
     def is_id_of_task(self, n):
         return isinstance(n, ast.Call) and isinstance(n.func, ast.Name) and n.func.id == 'id' and not n.keywords \
@@ -104,6 +139,8 @@ class PTr(es.STr):
     def expr(self, n):
         if isinstance(n, ast.Name) and n.id == CALC:
             miss(n, '`calculated` may only occur as `id(x) in calculated` / `calculated.append(id(x))`')
+        if isinstance(n, ast.Name) and n.id in self.wbs_vars:
+            miss(n, 'the WBS parameter may only occur as `<wbs>.tasks`, the iterable of a `for`')
         if isinstance(n, ast.Attribute) and isinstance(n.value, ast.Name) and n.value.id == self.self_name:
             f = unmangle(n.attr)
             if not isinstance(n.ctx, ast.Load) or f not in SELF_FIELDS:
@@ -143,9 +180,11 @@ class PTr(es.STr):
                 return [{1: 'maxList', 2: 'max', 3: 'max3'}[len(a)]] + [self.expr(x) for x in a]
             if f == 'min' and len(a) == 1:
                 return ['minList', self.expr(a[0])]
+            if f == 'min' and len(a) == 2:
+                return ['min', self.expr(a[0]), self.expr(a[1])]
             if f == 'sum' and len(a) == 1:
                 return ['sum', self.expr(a[0]), ['num', '0']]
-            if f in ('id', 'Resource', 'len', 'max'):
+            if f in ('id', 'Resource', 'len', 'max', 'min', 'reversed'):
                 miss(n, f'call of {f}')
         if isinstance(n, ast.Call) and isinstance(n.func, ast.Attribute) and not n.keywords:
             f = n.func
@@ -209,7 +248,7 @@ class PTr(es.STr):
     # ---- statements
     def target(self, t):
         x = super().target(t)
-        if x in (CALC, LEDGER) or x in self.task_vars or x == CHAIN_TMP:
+        if x in (CALC, LEDGER) or x in self.task_vars or x in self.wbs_vars or x == CHAIN_TMP:
             miss(t, 'assignment to a task variable / to a state parameter')
         return x
 
@@ -244,13 +283,16 @@ class PTr(es.STr):
         if isinstance(s, ast.For):
             if s.orelse:
                 miss(s, 'for-else')
-            it = self.expr(s.iter)
+            rev = self.reversed_task_list(s.iter)
+            wbs = self.wbs_tasks(s.iter)
+            it = ['reversed', self.expr(rev)] if rev is not None else \
+                ['attr', ['var', s.iter.value.id], WBS_TASKS] if wbs else self.expr(s.iter)
             if not (isinstance(s.target, ast.Name) and isinstance(s.target.ctx, ast.Store)):
                 miss(s, 'for target')
             x = s.target.id
-            if x in (self.self_name, CALC, LEDGER, CHAIN_TMP) or x in self.params:
+            if x in (self.self_name, CALC, LEDGER, CHAIN_TMP) or x in self.params or x in self.wbs_vars:
                 miss(s, 'for target')
-            if self.task_attr(s.iter, TASK_LISTS):
+            if rev is not None or wbs or self.task_attr(s.iter, TASK_LISTS):
                 self.task_vars.add(x)
             elif x in self.task_vars:
                 miss(s, 'for target')
@@ -258,7 +300,7 @@ class PTr(es.STr):
             return ['forIn', x, it, self.block(s.body, True)]
         if isinstance(s, ast.Expr) and isinstance(s.value, ast.Call):
             c = s.value
-            if self.self_method(c, METHOD):
+            if self.self_method(c, self.method):
                 if len(c.args) != len(PARAMS) or any(isinstance(x, ast.Starred) for x in c.args):
                     miss(s, 'recursive call')
                 for i, p in enumerate(PARAMS):
@@ -271,6 +313,10 @@ class PTr(es.STr):
                     and f.value.id == CALC and not c.keywords and len(c.args) == 1 and self.is_id_of_task(c.args[0]):
                 return ['calcAppend', ['var', c.args[0].args[0].id]]
             miss(s, 'expression statement')
+        if isinstance(s, ast.AugAssign) and isinstance(s.target, ast.Attribute) and type(s.op) in ec.BIN:
+            # `v.f op= e` = `v.f = v.f op e` (slots of immutable values)
+            o, f = self.attr_target(s.target)
+            return ['setAttr', o, f, ['bin', ec.BIN[type(s.op)], ['attr', o, f], self.expr(s.value)]]
         if isinstance(s, (ast.While, ast.AugAssign)):
             miss(s, 'statement')
         return super().stmt(s, in_loop)
@@ -278,7 +324,7 @@ class PTr(es.STr):
 
 def check_module(tree):
     es.check_module(tree)
-    fixed = {'max', 'len', 'id', 'Resource', 'Task'}
+    fixed = {'max', 'len', 'id', 'Resource', 'Task', 'reversed', WBS_CLASS}
     for n in ast.walk(tree):
         if isinstance(n, (ast.FunctionDef, ast.ClassDef, ast.AsyncFunctionDef)) and n.name in fixed:
             raise Miss(f'{n.name} is redefined')
@@ -294,29 +340,52 @@ def check_module(tree):
             for a in n.names:
                 if (a.asname or a.name) in fixed:
                     raise Miss(f'{a.name} is imported')
-    if not {'Task', 'Resource'} <= imported:
-        raise Miss('from pjplan import Task, Resource')
+    if not {'Task', 'Resource', WBS_CLASS} <= imported:
+        raise Miss('from pjplan import Task, WBS, Resource')
 
 
-def extract(schedule_src):
-    tree = ast.parse(schedule_src)
-    check_module(tree)
+def extract_method(tree, cls, method):
     # the callees: signatures as extract_schedule expects them
     for name, params in CALLS.items():
-        es.translate_scheduler_method(tree, CLASS, name, params)
-    fn = ec.method_of(tree, CLASS, METHOD)
+        es.translate_scheduler_method(tree, cls, name, params)
+    fn = ec.method_of(tree, cls, method)
     a = es.plain_signature(fn)
     names = [x.arg for x in a.args]
     if names[1:] != PARAMS or a.defaults:
-        raise Miss(f'{CLASS}.{METHOD}: parameters {names}')
+        raise Miss(f'{cls}.{method}: parameters {names}')
     if es.ann_name(a.args[1]) != 'Task' or es.ann_name(a.args[3]) != es.LEDGER_CLASS:
-        raise Miss(f'{CLASS}.{METHOD}: annotations')
+        raise Miss(f'{cls}.{method}: annotations')
     if fn.returns is not None:
-        raise Miss(f'{CLASS}.{METHOD}: return annotation')
+        raise Miss(f'{cls}.{method}: return annotation')
     used = {n.id for n in ast.walk(fn) if isinstance(n, ast.Name)} | {x.arg for x in a.args}
-    tr = PTr(names[0], {'_task', 'min_date'}, {'_task'}, used)
+    tr = PTr(names[0], {'_task', 'min_date'}, {'_task'}, used, method)
     body = tr.block(strip_docstring(fn.body), False)
-    return {KEY: {'params': ['_task', 'min_date'], 'body': body}}
+    return {'params': ['_task', 'min_date'], 'body': body}
+
+
+def extract_prepare(tree, cls):
+    """`@staticmethod def __prepare_tasks(project: WBS)`"""
+    fn = ec.method_of(tree, cls, PREPARE)
+    a = es.plain_signature(fn, static=True)
+    names = [x.arg for x in a.args]
+    if len(names) != 1 or a.defaults or es.ann_name(a.args[0]) != WBS_CLASS or fn.returns is not None:
+        raise Miss(f'{cls}.{PREPARE}: signature')
+    used = {n.id for n in ast.walk(fn) if isinstance(n, ast.Name)} | set(names)
+    if names[0] in (LEDGER, CALC, CHAIN_TMP):
+        raise Miss(f'{cls}.{PREPARE}: parameter name')
+    tr = PTr(None, set(), set(), used, None, wbs_vars=names)
+    body = tr.block(strip_docstring(fn.body), False)
+    return {'params': names, 'body': body}
+
+
+def extract(schedule_src):
+    """both passes and both `__prepare_tasks`; a Miss in any of them is a Miss of the whole (the caller then falls back
+    to PINNED for all)"""
+    tree = ast.parse(schedule_src)
+    check_module(tree)
+    d = {key: extract_method(tree, cls, method) for key, (cls, method) in METHODS.items()}
+    d.update({key: extract_prepare(tree, cls) for key, cls in PREPARES.items()})
+    return d
 
 
 # ---- Lean output
@@ -329,7 +398,8 @@ def lean_expr(e):
         return f'(.datetime {e[1]})' if e[1].isdigit() else f'(.datetime ({e[1]}))'
     if k == 'callSelf':
         return f'(.callSelf {ec.lean_str(e[1])} {lean_expr(e[2])})'
-    if k in ('listCons', 'len', 'max', 'max3', 'maxList', 'minList', 'isSame', 'calcHas', 'resSetdefault'):
+    if k in ('listCons', 'len', 'max', 'max3', 'maxList', 'minList', 'isSame', 'calcHas', 'resSetdefault', 'reversed',
+             'timedelta'):
         return f'(.{k} ' + ' '.join(lean_expr(x) for x in e[1:]) + ')'
     if k == 'attr':
         return f'(.attr {lean_expr(e[1])} {ec.lean_str(e[2])})'
@@ -374,103 +444,216 @@ def lean_stmt(s, ind):
 
 
 def to_lean(d):
-    m = d[KEY]
-    params = ', '.join('"' + p + '"' for p in m['params'])
-    return ('/- GENERATED by tools/extract.py (extract_pass) from /repo/src/pjplan/schedule.py — '
-            'do not edit.  Re-checked by `lake build`. -/\n'
-            'import PjVerif.Model.PyLite\nnamespace Pj.Extracted\n\n'
-            f'/-- schedule.py: `{CLASS}.{METHOD}(_task, min_date, resource_usage, calculated)`; the ledger\n'
-            '    `resource_usage` and the list `calculated` are the interpreter\'s state -/\n'
-            f'def src_{KEY} : List PyLite.Stmt :=\n  {lean_block(m["body"], 2)}\n\n'
-            f'/-- the positional parameters bound by a (recursive) call -/\n'
-            f'def src_{KEY}_params : List String := [{params}]\n'
-            '\nend Pj.Extracted\n')
+    out = ('/- GENERATED by tools/extract.py (extract_pass) from /repo/src/pjplan/schedule.py — '
+           'do not edit.  Re-checked by `lake build`. -/\n'
+           'import PjVerif.Model.PyLite\nnamespace Pj.Extracted\n\n')
+    for key, (cls, method) in METHODS.items():
+        m = d[key]
+        params = ', '.join('"' + p + '"' for p in m['params'])
+        out += (f'/-- schedule.py: `{cls}.{method}(_task, min_date, resource_usage, calculated)`; the ledger\n'
+                '    `resource_usage` and the list `calculated` are the interpreter\'s state -/\n'
+                f'def src_{key} : List PyLite.Stmt :=\n  {lean_block(m["body"], 2)}\n\n'
+                f'/-- the positional parameters bound by a (recursive) call -/\n'
+                f'def src_{key}_params : List String := [{params}]\n\n')
+    for key, cls in PREPARES.items():
+        m = d[key]
+        params = ', '.join('"' + p + '"' for p in m['params'])
+        out += (f'/-- schedule.py: the static method `{cls}.{PREPARE}({", ".join(m["params"])})`; the parameter is the\n'
+                '    WBS object, whose attribute `tasks` is the list of its member tasks -/\n'
+                f'def src_{key} : List PyLite.Stmt :=\n  {lean_block(m["body"], 2)}\n\n'
+                f'def src_{key}_params : List String := [{params}]\n\n')
+    return out + 'end Pj.Extracted\n'
 
 
 # the translation of the source as of the last successful check (fallback when extract() raises Miss)
-PINNED = {'Fwd_pass': {'body': [['ifElse', ['calcHas', ['var', '_task']], [['ret', ['none']]], []],
-                       ['forIn', 'pred', ['attr', ['var', '_task'], 'predecessors'],
-                        [['ifElse', ['isSame', ['attr', ['var', 'pred'], 'wbs'], ['attr', ['var', '_task'], 'wbs']],
-                          [['recurse',
-                            ['listCons', ['var', 'pred'], ['listCons', ['var', 'min_date'], ['listNil']]]]],
-                          []]]],
-                       ['assign', 'max_predecessor_ends',
-                        ['maxList',
-                         ['bin', 'add',
-                          ['listComp', ['attr', ['var', 't'], 'end'], 't', ['attr', ['var', '_task'], 'predecessors'],
-                           ['isNotNone', ['attr', ['var', 't'], 'end']]],
-                          ['listCons', ['var', 'min_date'], ['listNil']]]]],
-                       ['forIn', 'ch', ['attr', ['var', '_task'], 'children'],
-                        [['recurse',
-                          ['listCons', ['var', 'ch'], ['listCons', ['var', 'max_predecessor_ends'], ['listNil']]]]]],
-                       ['assign', 'resource', ['resSetdefault', ['attr', ['var', '_task'], 'resource']]],
-                       ['assign', 'is_leaf',
-                        ['cmp', 'eq', ['len', ['attr', ['var', '_task'], 'children']], ['num', '0']]],
-                       ['ifElse', ['and', ['attr', ['var', '_task'], 'milestone'], ['var', 'is_leaf']],
-                        [['assign', '_chain_value', ['var', 'max_predecessor_ends']],
-                         ['setAttr', ['var', '_task'], 'start', ['var', '_chain_value']],
-                         ['setAttr', ['var', '_task'], 'end', ['var', '_chain_value']],
-                         ['setAttr', ['var', '_task'], 'estimate', ['num', '0']],
-                         ['setAttr', ['var', '_task'], 'spent', ['num', '0']]],
-                        [['ifElse', ['isNone', ['attr', ['var', '_task'], 'start']],
-                          [['ifElse', ['var', 'is_leaf'],
-                            [['assign', 'task_min_start',
-                              ['or', ['attr', ['var', '_task'], 'min_start'], ['datetime', '0']]],
-                             ['setAttr', ['var', '_task'], 'start',
-                              ['max3', ['var', 'max_predecessor_ends'], ['now'], ['var', 'task_min_start']]],
-                             ['setAttr', ['var', '_task'], 'start',
-                              ['callSelf', 'get_resource_nearest_available_date',
-                               ['listCons', ['var', 'resource'],
-                                ['listCons', ['attr', ['var', '_task'], 'start'],
-                                 ['listCons', ['var', '_task'], ['listNil']]]]]]],
-                            [['assign', 'children_starts',
-                              ['listComp', ['attr', ['var', 't'], 'start'], 't',
-                               ['attr', ['var', '_task'], 'children'],
-                               ['isNotNone', ['attr', ['var', 't'], 'start']]]],
-                             ['ifElse', ['cmp', 'eq', ['len', ['var', 'children_starts']], ['num', '0']],
-                              [['assign', 'children_starts', ['listCons', ['datetime', '0'], ['listNil']]]], []],
-                             ['setAttr', ['var', '_task'], 'start', ['minList', ['var', 'children_starts']]]]]],
-                          []],
-                         ['ifElse', ['isNone', ['attr', ['var', '_task'], 'estimate']],
-                          [['ifElse', ['var', 'is_leaf'],
-                            [['setAttr', ['var', '_task'], 'estimate', ['field', 'default_estimate']]],
-                            [['setAttr', ['var', '_task'], 'estimate',
-                              ['sum',
-                               ['listComp', ['attr', ['var', 'ch'], 'estimate'], 'ch',
-                                ['attr', ['var', '_task'], 'children'], ['bool', True]],
-                               ['num', '0']]]]]],
-                          []],
-                         ['ifElse', ['isNone', ['attr', ['var', '_task'], 'spent']],
-                          [['ifElse', ['var', 'is_leaf'], [['setAttr', ['var', '_task'], 'spent', ['num', '0']]],
-                            [['setAttr', ['var', '_task'], 'spent',
-                              ['sum',
-                               ['listComp', ['attr', ['var', 'ch'], 'spent'], 'ch',
-                                ['attr', ['var', '_task'], 'children'], ['bool', True]],
-                               ['num', '0']]]]]],
-                          []],
-                         ['ifElse', ['isNone', ['attr', ['var', '_task'], 'end']],
-                          [['ifElse', ['var', 'is_leaf'],
-                            [['assign', 'left_hours',
-                              ['max',
-                               ['bin', 'sub', ['attr', ['var', '_task'], 'estimate'],
-                                ['attr', ['var', '_task'], 'spent']],
-                               ['num', '0']]],
-                             ['assign', 'start', ['max', ['attr', ['var', '_task'], 'start'], ['now']]],
-                             ['setAttr', ['var', '_task'], 'end',
-                              ['max3',
-                               ['callSelf', 'shift_by_resource_usage_and_calendar',
-                                ['listCons', ['var', 'resource'],
-                                 ['listCons', ['var', 'start'],
-                                  ['listCons', ['var', '_task'], ['listCons', ['var', 'left_hours'], ['listNil']]]]]],
-                               ['now'], ['attr', ['var', '_task'], 'start']]]],
-                            [['setAttr', ['var', '_task'], 'end',
-                              ['maxList',
-                               ['listComp', ['attr', ['var', 't'], 'end'], 't',
-                                ['attr', ['var', '_task'], 'children'],
-                                ['isNotNone', ['attr', ['var', 't'], 'end']]]]]]]],
-                          []]]],
-                       ['calcAppend', ['var', '_task']]],
-              'params': ['_task', 'min_date']}}
+PINNED = {'Bwd_pass': {'body': [['ifElse', ['calcHas', ['var', '_task']], [['ret', ['none']]], []],
+                                ['forIn', 'pred', ['attr', ['var', '_task'], 'successors'],
+                                 [['ifElse', ['isSame', ['attr', ['var', 'pred'], 'wbs'], ['attr', ['var', '_task'], 'wbs']],
+                                   [['recurse',
+                                     ['listCons', ['var', 'pred'], ['listCons', ['var', 'min_date'], ['listNil']]]]],
+                                   []]]],
+                                ['assign', 'min_successor_starts',
+                                 ['minList',
+                                  ['bin', 'add',
+                                   ['listComp', ['attr', ['var', 't'], 'start'], 't',
+                                    ['attr', ['var', '_task'], 'successors'],
+                                    ['isNotNone', ['attr', ['var', 't'], 'start']]],
+                                   ['listCons', ['var', 'min_date'], ['listNil']]]]],
+                                ['forIn', 'ch', ['reversed', ['attr', ['var', '_task'], 'children']],
+                                 [['recurse',
+                                   ['listCons', ['var', 'ch'],
+                                    ['listCons', ['var', 'min_successor_starts'], ['listNil']]]]]],
+                                ['assign', 'resource', ['resSetdefault', ['attr', ['var', '_task'], 'resource']]],
+                                ['assign', 'is_leaf',
+                                 ['cmp', 'eq', ['len', ['attr', ['var', '_task'], 'children']], ['num', '0']]],
+                                ['ifElse', ['and', ['attr', ['var', '_task'], 'milestone'], ['var', 'is_leaf']],
+                                 [['assign', '_chain_value', ['var', 'min_successor_starts']],
+                                  ['setAttr', ['var', '_task'], 'start', ['var', '_chain_value']],
+                                  ['setAttr', ['var', '_task'], 'end', ['var', '_chain_value']],
+                                  ['setAttr', ['var', '_task'], 'estimate', ['num', '0']],
+                                  ['setAttr', ['var', '_task'], 'spent', ['num', '0']]],
+                                 [['ifElse', ['isNone', ['attr', ['var', '_task'], 'end']],
+                                   [['ifElse', ['var', 'is_leaf'],
+                                     [['setAttr', ['var', '_task'], 'end', ['var', 'min_successor_starts']],
+                                      ['setAttr', ['var', '_task'], 'end',
+                                       ['callSelf', 'get_resource_nearest_available_date',
+                                        ['listCons', ['var', 'resource'],
+                                         ['listCons', ['attr', ['var', '_task'], 'end'],
+                                          ['listCons', ['var', '_task'], ['listNil']]]]]],
+                                      ['setAttr', ['var', '_task'], 'end',
+                                       ['bin', 'add', ['attr', ['var', '_task'], 'end'], ['timedelta', ['num', '1']]]]],
+                                     [['assign', 'children_ends',
+                                       ['listComp', ['attr', ['var', 't'], 'end'], 't',
+                                        ['attr', ['var', '_task'], 'children'],
+                                        ['isNotNone', ['attr', ['var', 't'], 'end']]]],
+                                      ['ifElse', ['cmp', 'eq', ['len', ['var', 'children_ends']], ['num', '0']],
+                                       [['setAttr', ['var', '_task'], 'end', ['var', 'min_date']]],
+                                       [['setAttr', ['var', '_task'], 'end', ['maxList', ['var', 'children_ends']]]]]]]],
+                                   []],
+                                  ['ifElse', ['isNone', ['attr', ['var', '_task'], 'estimate']],
+                                   [['ifElse', ['var', 'is_leaf'],
+                                     [['setAttr', ['var', '_task'], 'estimate', ['field', 'default_estimate']]],
+                                     [['setAttr', ['var', '_task'], 'estimate',
+                                       ['sum',
+                                        ['listComp', ['attr', ['var', 'ch'], 'estimate'], 'ch',
+                                         ['attr', ['var', '_task'], 'children'], ['bool', True]],
+                                        ['num', '0']]]]]],
+                                   []],
+                                  ['ifElse', ['isNone', ['attr', ['var', '_task'], 'spent']],
+                                   [['ifElse', ['var', 'is_leaf'], [['setAttr', ['var', '_task'], 'spent', ['num', '0']]],
+                                     [['setAttr', ['var', '_task'], 'spent',
+                                       ['sum',
+                                        ['listComp', ['attr', ['var', 'ch'], 'spent'], 'ch',
+                                         ['attr', ['var', '_task'], 'children'], ['bool', True]],
+                                        ['num', '0']]]]]],
+                                   []],
+                                  ['ifElse', ['var', 'is_leaf'],
+                                   [['assign', 'left_hours',
+                                     ['max',
+                                      ['bin', 'sub', ['attr', ['var', '_task'], 'estimate'],
+                                       ['attr', ['var', '_task'], 'spent']],
+                                      ['num', '0']]],
+                                    ['assign', 'end', ['min', ['attr', ['var', '_task'], 'end'], ['var', 'min_date']]],
+                                    ['assign', 'start',
+                                     ['callSelf', 'shift_by_resource_usage_and_calendar',
+                                      ['listCons', ['var', 'resource'],
+                                       ['listCons', ['var', 'end'],
+                                        ['listCons', ['var', '_task'], ['listCons', ['var', 'left_hours'], ['listNil']]]]]]],
+                                    ['ifElse', ['isNotNone', ['attr', ['var', '_task'], 'start']],
+                                     [['assign', 'start', ['min', ['attr', ['var', '_task'], 'start'], ['var', 'start']]]],
+                                     []],
+                                    ['setAttr', ['var', '_task'], 'start', ['var', 'start']]],
+                                   [['setAttr', ['var', '_task'], 'start',
+                                     ['minList',
+                                      ['listComp', ['attr', ['var', 't'], 'start'], 't',
+                                       ['attr', ['var', '_task'], 'children'],
+                                       ['isNotNone', ['attr', ['var', 't'], 'start']]]]]]]]],
+                                ['calcAppend', ['var', '_task']]],
+                       'params': ['_task', 'min_date']},
+          'Bwd_prepare': {'body': [['forIn', 't', ['attr', ['var', 'project'], 'tasks'],
+                                    [['ifElse', ['cmp', 'gt', ['len', ['attr', ['var', 't'], 'children']], ['num', '0']],
+                                      [['assign', '_chain_value', ['none']],
+                                       ['setAttr', ['var', 't'], 'start', ['var', '_chain_value']],
+                                       ['setAttr', ['var', 't'], 'end', ['var', '_chain_value']],
+                                       ['setAttr', ['var', 't'], 'estimate', ['var', '_chain_value']],
+                                       ['setAttr', ['var', 't'], 'spent', ['var', '_chain_value']]],
+                                      []]]]],
+                          'params': ['project']},
+          'Fwd_pass': {'body': [['ifElse', ['calcHas', ['var', '_task']], [['ret', ['none']]], []],
+                                ['forIn', 'pred', ['attr', ['var', '_task'], 'predecessors'],
+                                 [['ifElse', ['isSame', ['attr', ['var', 'pred'], 'wbs'], ['attr', ['var', '_task'], 'wbs']],
+                                   [['recurse',
+                                     ['listCons', ['var', 'pred'], ['listCons', ['var', 'min_date'], ['listNil']]]]],
+                                   []]]],
+                                ['assign', 'max_predecessor_ends',
+                                 ['maxList',
+                                  ['bin', 'add',
+                                   ['listComp', ['attr', ['var', 't'], 'end'], 't',
+                                    ['attr', ['var', '_task'], 'predecessors'],
+                                    ['isNotNone', ['attr', ['var', 't'], 'end']]],
+                                   ['listCons', ['var', 'min_date'], ['listNil']]]]],
+                                ['forIn', 'ch', ['attr', ['var', '_task'], 'children'],
+                                 [['recurse',
+                                   ['listCons', ['var', 'ch'],
+                                    ['listCons', ['var', 'max_predecessor_ends'], ['listNil']]]]]],
+                                ['assign', 'resource', ['resSetdefault', ['attr', ['var', '_task'], 'resource']]],
+                                ['assign', 'is_leaf',
+                                 ['cmp', 'eq', ['len', ['attr', ['var', '_task'], 'children']], ['num', '0']]],
+                                ['ifElse', ['and', ['attr', ['var', '_task'], 'milestone'], ['var', 'is_leaf']],
+                                 [['assign', '_chain_value', ['var', 'max_predecessor_ends']],
+                                  ['setAttr', ['var', '_task'], 'start', ['var', '_chain_value']],
+                                  ['setAttr', ['var', '_task'], 'end', ['var', '_chain_value']],
+                                  ['setAttr', ['var', '_task'], 'estimate', ['num', '0']],
+                                  ['setAttr', ['var', '_task'], 'spent', ['num', '0']]],
+                                 [['ifElse', ['isNone', ['attr', ['var', '_task'], 'start']],
+                                   [['ifElse', ['var', 'is_leaf'],
+                                     [['assign', 'task_min_start',
+                                       ['or', ['attr', ['var', '_task'], 'min_start'], ['datetime', '0']]],
+                                      ['setAttr', ['var', '_task'], 'start',
+                                       ['max3', ['var', 'max_predecessor_ends'], ['now'], ['var', 'task_min_start']]],
+                                      ['setAttr', ['var', '_task'], 'start',
+                                       ['callSelf', 'get_resource_nearest_available_date',
+                                        ['listCons', ['var', 'resource'],
+                                         ['listCons', ['attr', ['var', '_task'], 'start'],
+                                          ['listCons', ['var', '_task'], ['listNil']]]]]]],
+                                     [['assign', 'children_starts',
+                                       ['listComp', ['attr', ['var', 't'], 'start'], 't',
+                                        ['attr', ['var', '_task'], 'children'],
+                                        ['isNotNone', ['attr', ['var', 't'], 'start']]]],
+                                      ['ifElse', ['cmp', 'eq', ['len', ['var', 'children_starts']], ['num', '0']],
+                                       [['assign', 'children_starts', ['listCons', ['datetime', '0'], ['listNil']]]], []],
+                                      ['setAttr', ['var', '_task'], 'start', ['minList', ['var', 'children_starts']]]]]],
+                                   []],
+                                  ['ifElse', ['isNone', ['attr', ['var', '_task'], 'estimate']],
+                                   [['ifElse', ['var', 'is_leaf'],
+                                     [['setAttr', ['var', '_task'], 'estimate', ['field', 'default_estimate']]],
+                                     [['setAttr', ['var', '_task'], 'estimate',
+                                       ['sum',
+                                        ['listComp', ['attr', ['var', 'ch'], 'estimate'], 'ch',
+                                         ['attr', ['var', '_task'], 'children'], ['bool', True]],
+                                        ['num', '0']]]]]],
+                                   []],
+                                  ['ifElse', ['isNone', ['attr', ['var', '_task'], 'spent']],
+                                   [['ifElse', ['var', 'is_leaf'], [['setAttr', ['var', '_task'], 'spent', ['num', '0']]],
+                                     [['setAttr', ['var', '_task'], 'spent',
+                                       ['sum',
+                                        ['listComp', ['attr', ['var', 'ch'], 'spent'], 'ch',
+                                         ['attr', ['var', '_task'], 'children'], ['bool', True]],
+                                        ['num', '0']]]]]],
+                                   []],
+                                  ['ifElse', ['isNone', ['attr', ['var', '_task'], 'end']],
+                                   [['ifElse', ['var', 'is_leaf'],
+                                     [['assign', 'left_hours',
+                                       ['max',
+                                        ['bin', 'sub', ['attr', ['var', '_task'], 'estimate'],
+                                         ['attr', ['var', '_task'], 'spent']],
+                                        ['num', '0']]],
+                                      ['assign', 'start', ['max', ['attr', ['var', '_task'], 'start'], ['now']]],
+                                      ['setAttr', ['var', '_task'], 'end',
+                                       ['max3',
+                                        ['callSelf', 'shift_by_resource_usage_and_calendar',
+                                         ['listCons', ['var', 'resource'],
+                                          ['listCons', ['var', 'start'],
+                                           ['listCons', ['var', '_task'],
+                                            ['listCons', ['var', 'left_hours'], ['listNil']]]]]],
+                                        ['now'], ['attr', ['var', '_task'], 'start']]]],
+                                     [['setAttr', ['var', '_task'], 'end',
+                                       ['maxList',
+                                        ['listComp', ['attr', ['var', 't'], 'end'], 't',
+                                         ['attr', ['var', '_task'], 'children'],
+                                         ['isNotNone', ['attr', ['var', 't'], 'end']]]]]]]],
+                                   []]]],
+                                ['calcAppend', ['var', '_task']]],
+                       'params': ['_task', 'min_date']},
+          'Fwd_prepare': {'body': [['forIn', 't', ['attr', ['var', 'project'], 'tasks'],
+                                    [['ifElse', ['cmp', 'gt', ['len', ['attr', ['var', 't'], 'children']], ['num', '0']],
+                                      [['assign', '_chain_value', ['none']],
+                                       ['setAttr', ['var', 't'], 'start', ['var', '_chain_value']],
+                                       ['setAttr', ['var', 't'], 'end', ['var', '_chain_value']],
+                                       ['setAttr', ['var', 't'], 'estimate', ['var', '_chain_value']],
+                                       ['setAttr', ['var', 't'], 'spent', ['var', '_chain_value']]],
+                                      []]]]],
+                          'params': ['project']}}
 
 
 if __name__ == '__main__':
